@@ -144,6 +144,7 @@ fn mk_case(prop: &str, b: &Base, unit: u64) -> Case {
         note: b.note.clone(),
         unit,
         idx: 0,
+        prior: None,
     }
 }
 
@@ -415,6 +416,28 @@ pub fn unit_c07(w: &World, seed: u64, unit: u64, tier: Tier) -> Vec<Case> {
                 c.run_mem = i == 0;
                 c.fault_kind = if refused { "depth_over".into() } else { "depth_under".into() };
                 out.push(c);
+            }
+            // as an unknown field of an enclosing struct (the reader has state of its own by then: the skip
+            // budget belongs to the skipped value alone)
+            {
+                let st = TV::Struct(vec![(5, tv.clone()), (6, TV::I64(77))]);
+                let se = encode_value(proto, &st, Style::default());
+                let xlen = encoded_len_as_field_value(proto, &tv, Style::default());
+                let slen = se.out.len();
+                let mut svb = se.out.clone();
+                svb.extend_from_slice(&trailer);
+                for (i, sch) in [Schedule::whole(), Schedule::random(&mut r, svb.len(), ppct)].into_iter().enumerate() {
+                    let mut c = mk_case(prop, &base, unit);
+                    c.level = Level::SkipField;
+                    c.bytes = svb.clone();
+                    c.valid_len = Some(slen);
+                    c.expect = Some(format!("{:?}", TV::Struct(vec![(5, TV::I64(xlen as i64)), (6, TV::I64(77))])));
+                    c.expect_refused = Some(refused);
+                    c.sched = sch;
+                    c.run_mem = i == 0;
+                    c.fault_kind = if refused { "depth_over".into() } else { "depth_under".into() };
+                    out.push(c);
+                }
             }
             // through the unchecked reader's iterative skipper as an unknown field
             if proto == Proto::Binary {
@@ -757,11 +780,15 @@ pub fn unit_c09(w: &World, seed: u64, unit: u64, tier: Tier) -> Vec<Case> {
         // every protocol, at the drawn depth and at 60 000 levels (a recursive skipper that forgets to
         // count a level needs that many to run out of a 2 MiB stack)
         for bproto in [Proto::Binary, Proto::BinaryLE, Proto::Compact] {
-            for (kind, kname) in [(T_LIST, "list"), (T_SET, "set"), (T_MAP, "map")] {
+            for (kind, kname) in [(T_LIST, "list"), (T_SET, "set"), (T_MAP, "map"), (0u8, "mapkey")] {
                 for bd in [d, 60_000usize] {
                     let mut cb = Vec::new();
                     for _ in 0..bd {
                         match (bproto, kind) {
+                            // nesting through the key position: map<map<...>, i8> (the values follow the whole key)
+                            (Proto::Binary, 0) => cb.extend_from_slice(&[T_MAP, T_I8, 0, 0, 0, 1]),
+                            (Proto::BinaryLE, 0) => cb.extend_from_slice(&[T_MAP, T_I8, 1, 0, 0, 0]),
+                            (Proto::Compact, 0) => cb.extend_from_slice(&[0x01, 0xB3]),
                             (Proto::Binary, T_MAP) => cb.extend_from_slice(&[T_I8, T_MAP, 0, 0, 0, 1, 0]),
                             (Proto::BinaryLE, T_MAP) => cb.extend_from_slice(&[T_I8, T_MAP, 1, 0, 0, 0, 0]),
                             (Proto::Compact, T_MAP) => cb.extend_from_slice(&[0x01, 0x3B, 0x00]),
@@ -771,7 +798,7 @@ pub fn unit_c09(w: &World, seed: u64, unit: u64, tier: Tier) -> Vec<Case> {
                             (Proto::Compact, _) => cb.push(0x1A),
                         }
                     }
-                    let base = Base { proto: bproto, level: Level::Skip(kind), bytes: cb.clone(), spans: vec![], note: format!("{}bomb{}", kname, bd), tv: None, conforming: true };
+                    let base = Base { proto: bproto, level: Level::Skip(if kind == 0 { T_MAP } else { kind }), bytes: cb.clone(), spans: vec![], note: format!("{}bomb{}", kname, bd), tv: None, conforming: true };
                     for stream in [false, true] {
                         let mut c = mk_case(prop, &base, unit);
                         c.bytes = cb.clone();
@@ -1024,6 +1051,7 @@ pub fn unit_c10(w: &World, seed: u64, unit: u64, tier: Tier) -> Vec<Case> {
             note,
             unit,
             idx: 0,
+        prior: None,
         }
     };
     // every input goes through the contiguous leg and the fragmented leg
